@@ -7,9 +7,8 @@ import re
 from sa.astx import NotConst, call_attr, call_name, const_eval, dotted, lincmp, src, walk_local
 from sa.selftest import Mutant, Silent
 from sa.source import class_assigns
-from sa.props._lib_j import (EXC_FAMILY, all_paths, asserted_eq, asserted_in, bind_args, catching_handler, clone, edge_asserts,
-                             handler_names, is_self_attr, local_defs, names_loaded, no_exc, node_calls, normal_exits,
-                             params, resolve, rsrc, taint)
+from sa.props._lib_j import (all_paths, asserted_eq, asserted_in, bind_args, catching_handler, clone, edge_asserts,
+    handler_names, names_loaded, node_calls, normal_exits, params, resolve, rsrc, taint)
 
 PROPERTY = "C48"
 CRED = "cred/credentials.py"
@@ -612,7 +611,6 @@ def check(ctx):
     def sequences(fname):
         f = callees[fname]
         g = ctx.cfg(f)
-        defs = local_defs(f)
         seqs = set()
         for path in all_paths(g, g.entry, {g.exit}):
             seq = []
